@@ -194,7 +194,8 @@ class LookupClient(Client):
                 # self.transition_table.get(k, default)()
                 eff = eff + (('act', 'action'),)
                 continue
-            if txt.split('.')[0] in ('logging', 'logger', 'log', 'warnings', 'print', 'isinstance', 'len', 'repr', 'str'):
+            if txt.split('.')[0] in ('logging', 'logger', 'log', 'warnings', 'print', 'isinstance', 'len', 'repr', 'str') \
+                    or self.model.repo.is_logging_call(call, self.model.mod):
                 continue
             if txt.endswith('.format') or txt in ('tuple', 'int'):
                 continue
@@ -305,7 +306,8 @@ def run_handles_quietly(model: FsmModel, exc: str):
                 if any(model.hier.catches(nm, exc) == 'yes' for nm in names):
                     quiet = all(isinstance(b, (ast.Pass, ast.Continue)) or
                                 (isinstance(b, ast.Expr) and isinstance(b.value, ast.Call) and
-                                 norm(b.value.func).split('.')[0] in ('logging', 'logger', 'log', 'warnings'))
+                                 (norm(b.value.func).split('.')[0] in ('logging', 'logger', 'log', 'warnings')
+                                  or model.repo.is_logging_call(b.value, model.mod)))
                                 for b in h.body)
                     return quiet
         n = p
